@@ -17,6 +17,7 @@ type Unit struct {
 	BudgetThorough int
 	Env            []string
 	ExtraOverlay   map[string]string
+	GfdGeometry    [2]int // rows, columns of the scaled connMatrix geometry (C14), 0 = real
 }
 
 // Check is one property.
@@ -36,6 +37,46 @@ var commonAssumptions = []string{
 
 func checks() []Check {
 	return []Check{
+		{
+			ID: "C12", Level: "model_checking",
+			Rule: "explicit-state BFS over Get/Put/PutForeign/GC sequences on a fresh byteslice.Pool with an address ledger (every array ever seen is kept alive, so addresses identify memory), and over Get/Write/Put/GC on a fresh ringbuffer.Pool; a state is distinct by (outstanding slices len/cap in Get order, pooled regions cap/age in Put order, GC count)",
+			Assumptions: append([]string{"each process is single-threaded (GOMAXPROCS=1): every pool operation performs exactly one sync.Pool call, so goroutine interleavings reduce to operation sequences; data races are C05's business",
+				"size classes >= 2^27 are not allocated (covered by the index arithmetic of C20)"}, commonAssumptions...),
+			Units: []Unit{
+				{Name: "byteslice", Pkg: "pkg/pool/byteslice", Test: "TestMC_C12", Shards: 16, BudgetQuick: 240, BudgetThorough: 1500, Env: []string{"GOMAXPROCS=1"}},
+				{Name: "ringbuffer", Pkg: "pkg/pool/ringbuffer", Test: "TestMC_C12rb", BudgetQuick: 240, BudgetThorough: 1500, Env: []string{"GOMAXPROCS=1"}},
+			},
+		},
+		{
+			ID: "C14", Level: "model_checking",
+			Rule: "explicit-state BFS over add/del/lookup/iterate(+del) sequences on the real connMatrix of both build variants (map; gc_opt matrix with real and with scaled geometry); a state is distinct by the registry's full internal layout (which descriptor sits in which slot, next free slot); every transition compared with a map[int]*conn reference incl. lookups of all descriptors, count, visit-exactly-once and the stored indexes of every live connection",
+			Assumptions: append([]string{"scaled geometry = the current internal/gfd/gfd.go with only ConnMatrixRowMax/ConnMatrixColumnMax replaced (4x2, 4x4), so that all table layouts across row boundaries are enumerable; the real geometry is covered by depth-bounded search and scripted 65538-connection populations",
+				"removal of a descriptor that is not registered and registration of an already registered descriptor are outside the alphabet (the engine never does either)"}, commonAssumptions...),
+			Units: []Unit{
+				{Name: "map", Pkg: ".", Test: "TestMC_C14", Weight: 8},
+				{Name: "matrix-real", Pkg: ".", Tags: "gc_opt", Test: "TestMC_C14", Weight: 8},
+				{Name: "matrix-4x2", Pkg: ".", Tags: "gc_opt", Test: "TestMC_C14", Weight: 8, GfdGeometry: [2]int{4, 2}, Env: []string{"MC_C14_FDS=7"}},
+				{Name: "matrix-4x4", Pkg: ".", Tags: "gc_opt", Test: "TestMC_C14", Weight: 8, GfdGeometry: [2]int{4, 4}, Env: []string{"MC_C14_FDS=6"}},
+			},
+		},
+		{
+			ID: "C15", Level: "model_checking",
+			Rule: "policy part: round-robin for every N in 1..256 (3N accepts), least-connections as explicit-state BFS over accept/close sequences on fake loops with real connection counters plus every count vector in {0..3}^N, source-addr-hash for every N in 1..256 over an address alphabet; distinct_nontrivial = distinct (policy, N, count-vector/address) cases",
+			Assumptions: append([]string{"fake event loops: only the registry counters are real; the live clause (callbacks run on the assigned loop) is checked by the engine-level unit"}, commonAssumptions...),
+			Units: []Unit{{Name: "policy", Pkg: ".", Test: "TestMC_C15", Weight: 8}},
+		},
+		{
+			ID: "C16", Level: "exploration",
+			Rule: "bounded-exhaustive enumeration: every string up to a length over a 20-symbol alphabet behind 5 prefixes, every derivation of an address grammar, every integer option value of the stated ranges through createListeners and NewClient; distinct_nontrivial = distinct inputs (each enumerated input is distinct)",
+			Assumptions: append([]string{"malformed strings not pinned down by the statement may fail with any error (as gnet's own tests accept)", "capacities above 2^62 are outside the domain (no power of two fits an int)"}, commonAssumptions...),
+			Units: []Unit{{Name: "parse", Pkg: ".", Test: "TestMC_C16", Weight: 16}},
+		},
+		{
+			ID: "C17", Level: "exploration",
+			Rule: "conversion part: bounded-exhaustive enumeration of {tcp,udp,ip} x IP alphabet x all 65536 ports x zone alphabet, unix names x networks, and the zone index round trip for every index of a range; distinct_nontrivial = distinct inputs; live part (RemoteAddr/LocalAddr at every callback under churn) by the engine-level unit",
+			Assumptions: append([]string{"zones are compared by the interface index they denote on this host (lo=1, eth0=4); indices >= 2^24-1 are outside the domain (the decimal parser caps there)", "a nil IP and the unspecified address are the same address"}, commonAssumptions...),
+			Units: []Unit{{Name: "conv", Pkg: "pkg/socket", Test: "TestMC_C17conv", Weight: 2}},
+		},
 		{
 			ID: "C20", Level: "exploration",
 			Rule: "bounded-exhaustive enumeration of the integer domain (every int of the stated ranges, all power-of-two neighbourhoods up to 2^62); expectations derived from interval enumeration (loop-based reference); distinct_nontrivial = distinct inputs > 2 (math) / all inputs (index, gfd), counted",
